@@ -1030,6 +1030,9 @@ func RunSeq(seed uint64, sc *SeqCase, gen *OpGen, nops int, stopAtFirst bool) *S
 	w := simrt.Run(simrt.Config{Seed: seed, Parallelism: cfg.Parallelism, HashMode: cfg.HashMode, PoolMode: cfg.PoolMode, ClockOrigin: cfg.ClockOrigin, MaxSteps: 50_000_000}, func(w *simrt.World) {
 		r := NewRunner(w, &cfg)
 		m := NewModel(&cfg)
+		if gen != nil && gen.P != nil {
+			m.alsoProp = gen.P.AlsoProp
+		}
 		s := &seqState{m: m, r: r, flexExp: map[int][]int64{}, flexRef: map[int][]int64{}, refFree: map[int]bool{}, extraKey: map[int]bool{}}
 		ctx := &taskCtx{id: 0, opIdx: -1}
 		simrt.Cur().Tag = ctx
